@@ -211,7 +211,7 @@ class CazacBasedWithOCCChannelEstimator(CazacBasedChannelEstimator):
         # false we will reshape this view to add a dimension for the cover
         # code
         r = received_signal.view()
-        if extra_dimension is False:
+        if not extra_dimension:
             # Let's reorganize the received signal so that we have the
             # extra dimension
             if received_signal.ndim == 1:
